@@ -38,6 +38,26 @@ def comment_token(written):
     return written[:-1] if written.endswith('\n') else written
 
 
+def write_defect(ctx, cnt, text, written, b, b2, exc2):
+    """the three recorded defects of the writer, each recognised by its exact effect"""
+    if exc2 is not None or b2 == b:
+        return None
+    rep = {'kind': 'text', 'text': text, 'written': written}
+    if ac._REAL_ACTION.match(b['name']) and (b2 is None or b2['name'] != b['name']):
+        ctx.report_failure(ac.KEY_ACTION_WRITE, ac.PENDING_FINDINGS[2]['what'], rep)
+        cnt.hit('block:pending(action-write)')
+        return 'pending'
+    if ac.is_name_prefix_defect(b, b2):
+        ctx.report_failure(ac.KEY_NAME_PREFIX, ac.PENDING_FINDINGS[5]['what'], rep)
+        cnt.hit('block:pending(name-prefix-write)')
+        return 'pending'
+    if b2 is not None and ac.is_empty_value_defect(b, b2):
+        ctx.report_failure(ac.KEY_EMPTY_VALUE, ac.PENDING_FINDINGS[4]['what'], rep)
+        cnt.hit('block:pending(empty-value-write)')
+        return 'pending'
+    return None
+
+
 def check_model(ctx, impl, cnt, m, layouts):
     """the real parser must recover exactly the model from every layout, all layouts must
     agree, and writing + re-parsing must give the same block"""
@@ -76,11 +96,9 @@ def check_model(ctx, impl, cnt, m, layouts):
         except Exception as e:  # noqa
             written, b2, exc2 = None, None, e
         cnt.hit('block:write-parse')
-        if exc2 is None and b['name'].startswith('ACTION:') and (b2 is None or b2['name'] != b['name']):
-            ctx.report_failure(ac.KEY_ACTION_WRITE, ac.PENDING_FINDINGS[2]['what'],
-                               {'kind': 'text', 'text': text, 'written': written})
-            cnt.hit('block:pending(action-write)')
-            return 'pending'
+        pend = write_defect(ctx, cnt, text, written, b, b2, exc2)
+        if pend:
+            return pend
         if exc2 is not None or b2 != b:
             ctx.report_failure('write:' + json.dumps(text),
                                'parse(write(parse(s))) differs from parse(s): written=%r reparsed=%r (exception %r), '
@@ -132,10 +150,9 @@ def check_text_fixpoint(ctx, impl, cnt, text, origin):
     impl.take()
     written = comment_token(impl.writer.write(blk))
     b2, _i, _r, exc2 = ac.parse_real(impl, written)
-    if exc2 is None and b['name'].startswith('ACTION:') and (b2 is None or b2['name'] != b['name']):
-        ctx.report_failure(ac.KEY_ACTION_WRITE, ac.PENDING_FINDINGS[2]['what'],
-                           {'kind': 'text', 'text': text, 'written': written})
-        return 'pending'
+    pend = write_defect(ctx, cnt, text, written, b, b2, exc2)
+    if pend:
+        return pend
     if exc2 is not None or b2 != b:
         ctx.report_failure('write:' + json.dumps(text),
                            'parse(write(parse(s))) differs from parse(s) for %s: written=%r reparsed=%r parsed=%r'
@@ -147,7 +164,8 @@ def check_text_fixpoint(ctx, impl, cnt, text, origin):
 def run(ctx):
     cnt = Counter()
     ac.install_pending(ctx)
-    ctx.prove(['gen_pyclasses', 'gen_annvocab'], ['GIVerif.Props.C10'], 'GIVerif.Props.C10')
+    ctx.prove(['gen_pyclasses', 'gen_annvocab', 'gen_anncase'], ['GIVerif.Props.C10'], 'GIVerif.Props.C10')
+    ctx.log('proofs checked')
     impl = ac.Impl()
     voc = ac.vocab(impl.ap)
     rng = ctx.rng
@@ -171,11 +189,17 @@ def run(ctx):
             r = impl.parse_annotations(text + rng.choice(['', ': text', ':', ' x']), rng.randint(0, 4), None, True)
             rt += 1
             want = [[n, o] for n, o in a]
+            if r.get('ok') and r['end'] == len(text) and not r['diags'] and ac.is_empty_value_defect(want, r['anns']):
+                ctx.report_failure(ac.KEY_EMPTY_VALUE, ac.PENDING_FINDINGS[4]['what'],
+                                   {'kind': 'anns', 'anns': a, 'text': text, 'result': r})
+                cnt.hit('L1:pending(empty-value-write)')
+                continue
             if not r.get('ok') or r['anns'] != want or r['end'] != len(text) or r['diags']:
                 ctx.report_failure('ann-roundtrip:' + json.dumps(a),
                                    'tokenizer does not read back what the writer emits: anns=%r text=%r result=%r'
                                    % (a, text, r), {'kind': 'anns', 'anns': a, 'text': text, 'result': r})
     cnt.hit('L1:roundtrip-on-impl', rt)
+    ctx.log('layer 1 done')
 
     # ---- layer 2: line matchers vs CPython re with the repo's compiled patterns
     tests = ac.load_pattern_tests()
@@ -192,18 +216,22 @@ def run(ctx):
         lcases.extend((n, l) for n in ac.PATTERN_NAMES)
     nd2, nl2 = ac.check_matchers(ctx, impl, cnt, 'c10', lcases)
     samples.append({'layer': 2, 'pattern': lcases[-1][0], 'line': lcases[-1][1]})
+    ctx.log('layer 2 done')
 
     # ---- block level: statement oracles on the real parser and writer
     verdicts = Counter()
     nmodels = ctx.n(700, 25000)
+    block_texts = []            # every text of the block level also goes through the block MODEL (layer 3)
     for c in corpus:
         if c.get('kind') == 'model':
             v = check_model(ctx, impl, cnt, c['model'], c['layouts'])
             verdicts.hit(v)
+            block_texts.extend((ac.render_block(c['model'], lay), 1) for lay in c['layouts'])
     last = None
     for i in range(nmodels):
         m = ac.gen_block_model(rng, impl, voc)
         layouts = [ac.gen_layout(rng) for _ in range(3 if ctx.quick() or i >= 200 else 12)]
+        block_texts.extend((ac.render_block(m, lay), rng.choice([1, 1, 12, 345])) for lay in layouts[:3])
         v = check_model(ctx, impl, cnt, m, layouts)
         verdicts.hit(v)
         cnt.case(['b', m], nontrivial=bool(m['params'] or m['tags'] or m['annotations'] or m['description']))
@@ -220,10 +248,22 @@ def run(ctx):
         if c.get('kind') == 'text':
             verdicts.hit('corpus:' + check_text_fixpoint(ctx, impl, cnt, c['text'], 'corpus'))
 
+    ctx.log('block-level oracles done')
+    # ---- layer 3: the block state machine and the block writer, model vs real
+    block_texts.extend((x['input'], 1) for x in xml)
+    block_texts.extend((c['text'], c.get('lineno', 1)) for c in corpus if c.get('kind') == 'text')
+    for t, ln in list(block_texts[:ctx.n(300, 5000)]):
+        # the written form of a parsed block is an input of its own (what write->parse reads)
+        w = ac.real_block_case(impl, t, ln).get('written')
+        if isinstance(w, str):
+            block_texts.append((comment_token(w), ln))
+    nd3, nb3 = ac.check_blocks(ctx, impl, cnt, 'c10', block_texts)
+    ctx.log('layer 3 done')
+
     dist = dict(cnt.counts)
     dist.update({'verdict:' + k: v for k, v in verdicts.counts.items()})
     ctx.coverage.update({
-        'evaluations': len(l1) + len(ser) + nl2 + cnt.counts.get('block:layout', 0) + len(xml),
+        'evaluations': len(l1) + len(ser) + nl2 + cnt.counts.get('block:layout', 0) + len(xml) + nb3,
         'distinct_nontrivial': cnt.n_distinct(),
         'rule': 'seeded generators. Layer 1: annotation fields built from the full annotation vocabulary, option lists '
                 'and unknown names, then 0-3 grammar-aware mutations; non-trivial = contains a parenthesis. Layer 2: '
@@ -237,7 +277,7 @@ def run(ctx):
         'distribution': dist,
         'corpus_cases': len(corpus),
         'xml_test_inputs': len(xml),
-        'correspondence_disagreements': {'layer1': nd1, 'layer2': nd2},
+        'correspondence_disagreements': {'layer1': nd1, 'layer2': nd2, 'layer3': nd3},
         'layers': {'1 tokenizer/options/writer of annotations': 'modelled, proved (C10_ann_roundtrip, '
                    'C10_ann_continuation), corresponded',
                    '2 line matchers': 'modelled, shape-pinned (C10_pattern_shapes), corresponded',
